@@ -144,7 +144,7 @@ func c02(c *Ctx) {
 	tsDir := filepath.Join(l.Dir, "ts")
 	for _, g := range corpus.PlacementGroups() {
 		pkg := "c02.p" + g.Label
-		f, cases := corpus.PlacementFile(pkg, "c02p"+g.Label, g.QueryKinds, g.Cards, g.WithPath)
+		f, cases := corpus.PlacementFileG(pkg, "c02p"+g.Label, g)
 		if g.Label == "ok" {
 			// add required-query RPCs
 			svc := f.Services[0]
